@@ -558,12 +558,12 @@ func init() {
 			if u == len(ops) {
 				for i, pc := range c05OrderPrograms() {
 					pc, i := pc, i
-					c.Do(func() any { return c05Spec{Form: "order", L: i, Text: pc.source()} }, func() *fw.Violation { v, _, _ := pc.check(c); return v })
+					c.Do(func() any { return c05Spec{Form: "order", L: i, Text: pc.source()} }, func() *fw.Violation { return pc.mustCheck(c, "evaluation order") })
 				}
 				copyTimeRun(c, "return") // an operand that is a call result is a value: a later operand cannot change it
 				for i, pc := range c05DerivedPrograms() {
 					pc, i := pc, i
-					c.Do(func() any { return c05Spec{Form: "derived", L: i, Text: pc.source()} }, func() *fw.Violation { v, _, _ := pc.check(c); return v })
+					c.Do(func() any { return c05Spec{Form: "derived", L: i, Text: pc.source()} }, func() *fw.Violation { return pc.mustCheck(c, "derived forms") })
 				}
 				for lo := 0; lo < 10000; lo += 1000 {
 					lo := lo
